@@ -1143,6 +1143,67 @@ def rule_qtools_wiring(rep, repo):
             "energy_estimate takes %r" % params, loc=qe.loc(efn))
 
 
+GMAP = "qkeras.qtools.generate_layer_data_type_map"
+
+
+def rule_count_input(rep, repo):
+  """R11: which input shape the operation count is computed from.  The
+  statement of generate_layer_data_type_map that derives `operation_count`
+  for a node is executed (with qtools_util interpreted) for merge layers
+  whose inputs are broadcast - the largest operand first, in the middle,
+  last - and for equal shapes: an element-wise merge performs one operation
+  per element of its largest input, whatever position that input has."""
+  gm = repo.module(GMAP)
+  fn = gm.functions.get("generate_layer_data_type_map")
+  if fn is None:
+    raise AnalysisError("anchor-missing generate_layer_data_type_map")
+  stmt = None
+  for n in ast.walk(fn):
+    if isinstance(n, ast.If) and any(
+        isinstance(x, ast.Assign) and any(
+            isinstance(t, ast.Name) and t.id == "operation_count"
+            for t in x.targets) for x in ast.walk(n)) and stmt is None \
+        and "input_qe_list" in ast.unparse(n.test):
+      stmt = n
+  unit = "%s::generate_layer_data_type_map" % gm.relpath
+  rep.unit(unit)
+  if stmt is None:
+    raise AnalysisError("anchor-missing the statement that computes "
+                        "operation_count from input_qe_list")
+  loc = gm.loc(stmt)
+  big, mid, small = (None, 6, 5, 8), (None, 1, 5, 8), (None, 1, 1, 8)
+  cases = [("largest first", [big, small]), ("largest last", [small, big]),
+           ("largest in the middle", [small, big, mid]),
+           ("largest first of three", [big, mid, small]),
+           ("equal shapes", [big, big]), ("single input", [big])]
+  for cname in ("Multiply", "Add", "Subtract", "Average", "Maximum"):
+    for label, shapes in cases:
+      if label == "single input" and cname != "Add":
+        continue
+      layer = Mock(cname, {"name": "m", "__class__": Mock(
+          "class", {"__name__": cname})})
+      frame = {"input_qe_list": [(Mock("q%d" % i, {}), {"shape": sh})
+                                 for i, sh in enumerate(shapes)],
+               "node_id": 3, "layer": layer, "debug": False}
+      pe = PE(repo)
+      pe.opaque_ext = True
+      cfg = "%s with input shapes %s (%s)" % (cname, shapes, label)
+      try:
+        pe.exec_block([stmt], [frame], gm)
+      except PyRaise as e:
+        rep.fail("R11", unit, "count-raises", "%s: raises %s" % (cfg, e),
+                 loc=loc, instance=cfg)
+        continue
+      got = frame.get("operation_count")
+      if isinstance(got, Tensor):
+        got = Fwd()(got.term).const_value()
+      rep.check(got is not None and F(got) == 6 * 5 * 8, "R11", unit,
+                "count-from-wrong-input",
+                "%s: operation_count = %r, one operation per element of the "
+                "largest input is %d" % (cfg, got, 6 * 5 * 8), loc=loc,
+                instance=cfg, observed=repr(got))
+
+
 def run(rep, repo, tier):
   rep.trusted.append("Keras compute_output_shape (output shapes are symbols)")
   rep.assumptions.append("the energy constants themselves and the rounding "
@@ -1155,6 +1216,8 @@ def run(rep, repo, tier):
   rule_process_settings(rep, repo)
   rule_qtools_wiring(rep, repo)
   rep.require_instances("R10", 6)
+  rule_count_input(rep, repo)
+  rep.require_instances("R11", 20)
   rep.require_instances("R9", 15)
   rep.require_instances("R7", 18)
   rep.require_instances("R6", 36)
